@@ -371,8 +371,8 @@ def run_case(case: dict) -> dict:
         rets = {}
         seen_slots = {}
         awaited = set()
-        errors = [(c, p) for c in range(nclients) for m, p in sim.clients[c].inbox if m.name == 'ERROR']
         consequences = []        # findings that a D7 double wake explains
+        errors = [(c, p) for c in range(nclients) for m, p in sim.clients[c].inbox if m.name == 'ERROR']
 
         def add(sig, what, expected, observed, consequence=False):
             f = dict(sig=sig, what=what, expected=expected, observed=observed)
@@ -426,8 +426,12 @@ def run_case(case: dict) -> dict:
                     add({'call': 'next', 'symptom': 'incomplete'}, 'next-loop on future %d of task %d ended without all slots' % (f, nid), list(range(len(kids))), seen_slots.get((nid, f)))
         d7b = any(f['sig'].get('symptom') == 'value-read-before-stored' for f in res['findings'])
         for where, text in sim.exceptions:
-            if d7b and where.startswith('recv') and 'KeyError' in text and '_handle_result' in text:
-                continue        # consequence of D7b: the awaiting task already finished when the handler resumed
+            if (d7b or (d7_hits and split_handler)) and where.startswith('recv') and 'KeyError' in text and '_handle_result' in text:
+                # the awaiting task already finished when the half-done handler resumed: consequence of D7b, or
+                # of a stale D7 wake-up that stepped the task while a result was half deposited
+                consequences.append(dict(sig={'call': 'recv', 'symptom': 'handler-found-task-gone'}, what='KeyError in _handle_result',
+                                         expected='none', observed=text[-300:]))
+                continue
             add({'call': where.rstrip('0123456789'), 'symptom': 'internal-exception'}, 'exception outside any task body in %s' % where, 'none', text)
         for c, p in errors:
             text = p if isinstance(p, str) else repr(p)
@@ -633,8 +637,9 @@ def run(ctx: vf.Ctx):
     ctx.cov['theorem_coverage'] = dict(
         proved=['C07_task_conservation (both variants)', 'C07_slot_values (both variants; await complete and in argument order, next values, client root result)',
                 'C07_next_batches (+_complete)', 'C07_result_deposited_once', 'C07_wake_once (atomic registration)',
+                'C07_no_deadlock_partial (no lost wake-up, atomic registration)',
                 'C07_wake_once_refuted (code as it is: D7)'],
-        not_proved=['C07_no_deadlock_full (Definition only; oracle + exhaustive model exploration of 4 small scenarios)'],
+        not_proved=['C07_no_deadlock_full (Definition; the global descent is missing; oracle + exhaustive model exploration of 4 small scenarios)'],
         correspondence_only=['server relay (schedule_tasks/send_result_down observed, assignment replayed)'],
         uncovered=['manager topology', 'cancellation (C12)', 'statement interleavings inside receiving-thread handlers',
                    'COMMUNICATE / LOG / IMPORTPATH messages'])
